@@ -17,6 +17,9 @@ callables inside this process.
 import os
 import sys
 import json
+import random
+import gzip
+import bisect
 import shutil
 import logging
 import tempfile
@@ -58,6 +61,21 @@ KIND_NAME = {
 }
 
 
+def rkey(sel, hc=None):
+    """runner key: the selection id, with the handicap for the lines of a handicap market"""
+    if hc in (None, 0, 0.0):
+        return str(sel)
+    return "%s@%s" % (sel, repr(float(hc)))
+
+
+def rsplit(entry):
+    """scenario runner entry (int or 'sel@hc') -> (selection id, handicap or None)"""
+    if isinstance(entry, str) and "@" in entry:
+        a, b = entry.split("@")
+        return int(a), float(b)
+    return int(entry), None
+
+
 def pence(x):
     """float currency -> integer pence (exact to 1e-6, else flagged by caller)"""
     if x is None:
@@ -86,9 +104,12 @@ def ms_of(dt):
 # ----------------------------------------------------------------------------------------
 def _market_definition(m, u):
     runners = []
-    for i, sel in enumerate(m["runners"]):
-        rs = u.get("rstat", {}).get(str(sel), ["ACTIVE", None, None])
+    for i, ent in enumerate(m["runners"]):
+        sel, hc_ = rsplit(ent)
+        rs = u.get("rstat", {}).get(str(ent), ["ACTIVE", None, None])
         r = {"status": rs[0], "sortPriority": i + 1, "id": sel}
+        if hc_ is not None:
+            r["hc"] = hc_
         if len(rs) > 1 and rs[1] is not None:
             r["adjustmentFactor"] = rs[1]
         if len(rs) > 2 and rs[2] is not None:
@@ -115,7 +136,7 @@ def _market_definition(m, u):
         "inPlay": bool(u.get("inplay", False)),
         "crossMatching": False,
         "runnersVoidable": False,
-        "numberOfActiveRunners": len([1 for sel in m["runners"] if u.get("rstat", {}).get(str(sel), ["ACTIVE"])[0] == "ACTIVE"]),
+        "numberOfActiveRunners": len([1 for ent in m["runners"] if u.get("rstat", {}).get(str(ent), ["ACTIVE"])[0] == "ACTIVE"]),
         "betDelay": int(u.get("bet_delay", 0)),
         "status": u.get("status", "OPEN"),
         "runners": runners,
@@ -151,14 +172,19 @@ def write_market_file(path, m):
             mc["marketDefinition"] = _market_definition(m, u)
             prev_md = md_key
         rc = []
-        for sel in m["runners"]:
-            b = u.get("books", {}).get(str(sel))
+        for ent in m["runners"]:
+            sel, hc_ = rsplit(ent)
+            if hc_ is None and m.get("handicaps", {}).get(str(sel)) is not None:
+                hc_ = m["handicaps"][str(sel)]
+            ident = {"id": sel} if hc_ is None else {"id": sel, "hc": hc_}
+            b = u.get("books", {}).get(str(ent))
             if b is None:
                 if k == 0:
-                    rc.append({"id": sel, "ltp": 2.0})
+                    rc.append(dict(ident, ltp=2.0))
                 continue
+            sel = ent          # key of the previous-book table
             pb = prev_books.get(sel, {"atb": {}, "atl": {}, "trd": {}})
-            r = {"id": sel}
+            r = dict(ident)
             nb = {}
             for side in ("atb", "atl", "trd"):
                 new = {float(p): float(s) for p, s in b.get(side, [])}
@@ -171,9 +197,9 @@ def write_market_file(path, m):
                     r[side] = delta
                 nb[side] = new
             prev_books[sel] = nb
-            if k == 0 and len(r) == 1:
+            if k == 0 and len(r) == len(ident):
                 r["ltp"] = 2.0  # make the runner known to the stream cache from the first line on
-            if len(r) > 1:
+            if len(r) > len(ident):
                 rc.append(r)
         if rc:
             mc["rc"] = rc
@@ -190,6 +216,7 @@ def write_market_file(path, m):
 class Recorder:
     def __init__(self, scn):
         self.scn = scn
+        self._raw_index = {}
         self.steps = []
         self.olabel = {}  # id(order) -> label
         self.orders = collections.OrderedDict()  # label -> order
@@ -217,9 +244,48 @@ class Recorder:
         self.removed_seen = {}
         self.want_sweep = None
 
+    def _file_index(self, m):
+        """recorded stream file: fold the `trd` deltas of the raw lines into the cumulative traded ladder
+        per runner after every line - independent of the stream cache and of RunnerAnalytics"""
+        idx = self._raw_index.get(m["id"])
+        if idx is None:
+            pts, snaps, acc = [], [], {}
+            opener = gzip.open if m["file"].endswith(".gz") else open
+            with opener(m["file"], "rt") as f:
+                for line in f:
+                    d = json.loads(line)
+                    changed = False
+                    for mc in d.get("mc", []):
+                        if mc.get("id") != m["id"]:
+                            continue
+                        if mc.get("img"):
+                            acc = {}
+                            changed = True
+                        for rc in mc.get("rc", []):
+                            if "trd" in rc:
+                                sk = rkey(rc["id"], rc.get("hc"))
+                                lad = dict(acc.get(sk, {}))
+                                for price, size in rc["trd"]:
+                                    if size == 0:
+                                        lad.pop(pence(price), None)
+                                    else:
+                                        lad[pence(price)] = pence(size)
+                                acc = dict(acc)
+                                acc[sk] = lad
+                                changed = True
+                    if changed or not pts:
+                        pts.append(int(d["pt"]) - T0)
+                        snaps.append(acc)
+            idx = self._raw_index[m["id"]] = (pts, snaps)
+        return idx
+
     def raw_cum(self, mid, pt):
         """cumulative traded ladder {selk: {price_c: size_p}} of the scenario's line (mid, pt)"""
         for m in self.scn["markets"]:
+            if m["id"] == mid and m.get("file"):
+                pts, snaps = self._file_index(m)
+                k = bisect.bisect_right(pts, pt) - 1
+                return snaps[k] if k >= 0 else {}
             if m["id"] == mid:
                 cum = None
                 # the stream file carries deltas; the scenario holds the full ladder per update and
@@ -313,14 +379,14 @@ class Recorder:
             "sel": o.selection_id,
             "mid": o.market_id,
             "strat": o.trade.strategy.name,
-            "rck": self.rck(o.trade.strategy, o.market_id, o.selection_id),
+            "rck": self.rck(o.trade.strategy, o.market_id, rkey(o.selection_id, o.handicap)),
             "created": ms_of(o.date_time_created),
             "placed": ms_of(o.responses.date_time_placed),
             "supd": ms_of(o.date_time_status_update),
             "red": self._p(red) if red else 0,
             "newp": self._p(newp) if newp else 0,
             "nlog": len(o.status_log),
-            "selk": str(o.selection_id),
+            "selk": rkey(o.selection_id, o.handicap),
             "lad": getattr(ot, "price_ladder_definition", None) or "CLASSIC",
             "client": o.client.username if o.client is not None else "",
             "bseq": (list(mk.blotter._orders.values()).index(o) if inbl else -1),
@@ -355,7 +421,7 @@ class Recorder:
                 "status": TSTATUS_NAME[t.status],
                 "orders": [self.label_order(o) for o in t.orders],
                 "pend": bool(t.pending_orders),
-                "rck": self.rck(t.strategy, t.market_id, t.selection_id),
+                "rck": self.rck(t.strategy, t.market_id, rkey(t.selection_id, t.handicap)),
                 "mid": t.market_id,
             }
             for lab, t in self.trades.items()
@@ -363,7 +429,7 @@ class Recorder:
         rc = {}
         for s in fl.strategies:
             for (mid, sel, hc), ctx in s._invested.items():
-                rc[self.rck(s, mid, sel)] = {
+                rc[self.rck(s, mid, rkey(sel, hc))] = {
                     "trades": [self._tl(t) for t in ctx.trades],
                     "live": [self._tl(t) for t in ctx.live_trades],
                     "lastp": ms_of(ctx.datetime_last_placed),
@@ -393,7 +459,7 @@ class Recorder:
             "bsprec": bool(mb.bsp_reconciled) if mb is not None else False,
             "closed": bool(mk.closed),
             "pt": ms_of(mb.publish_time_epoch) if mb is not None else -1,
-            "removed": sorted(str(r.selection_id) for r in mb.runners if r.status == "REMOVED") if mb is not None else [],
+            "removed": sorted(rkey(r.selection_id, r.handicap) for r in mb.runners if r.status == "REMOVED") if mb is not None else [],
             "nactive": int(mb.number_of_active_runners or 0) if mb is not None else 0,
             "nwin": int(mb.number_of_winners or 0) if mb is not None else 0,
         }
@@ -554,6 +620,86 @@ class Scripted(BaseStrategy):
             rec.step("cb", strat=self.name, mid=market.market_id, pt=pt, phase=phase, n=len(actions))
 
 
+class Reactive(Scripted):
+    """decides from the book it is shown (recorded market data cannot be scripted in advance): a seeded
+    random walk over place (through / at / behind the best price, fill-or-kill, SP orders), cancel
+    (full / partial), update and replace of its own orders"""
+
+    def __init__(self, rec, spec, **kw):
+        super().__init__(rec, spec, **kw)
+        r = spec["reactive"]
+        self.rng = random.Random("%s|%s" % (r.get("seed", 0), spec["name"]))
+        self.r = r
+        self.n_orders = 0
+        self.mine = []
+
+    def _run(self, market, pt, phase):
+        rec, r, rng = self.rec, self.r, self.rng
+        actions = []
+        try:
+            if phase == "book" and rng.random() < r.get("p_action", 0.05):
+                mb = market.market_book
+                cands = [x for x in mb.runners if x.status == "ACTIVE" and (x.ex.available_to_back or x.ex.available_to_lay or x.last_price_traded)]
+                live = [l for l in self.mine if l in rec.orders and rec.orders[l].status.value == "Executable" and rec.orders[l].market_id == market.market_id]
+                op = rng.choice(["place"] * 5 + ["cancel", "cancel", "update", "replace"])
+                if op != "place" and not live:
+                    op = "place"
+                if op == "place" and cands and self.n_orders < r.get("max_orders", 14) and mb.status == "OPEN":
+                    x = rng.choice(cands)
+                    side = rng.choice(["BACK", "LAY"])
+                    atb = [(l["price"], l["size"]) for l in x.ex.available_to_back]
+                    atl = [(l["price"], l["size"]) for l in x.ex.available_to_lay]
+                    same = atb if side == "BACK" else atl       # what the order can take
+                    other = atl if side == "BACK" else atb      # where it queues
+                    ref = same[0][0] if same else (other[0][0] if other else x.last_price_traded)   # price-only data: last traded price
+                    if ref is not None:
+                        where = rng.choice(["through", "at", "behind", "deep"])
+                        k = {"through": -2, "at": 0, "behind": 1, "deep": 3}[where] * (1 if side == "BACK" else -1)
+                        price = _tick_move(ref, k)
+                        if where == "deep" and len(other) > 1 and rng.random() < 0.7:
+                            price = other[min(len(other) - 1, rng.randint(1, 2))][0]    # join an existing deeper level
+                        self.n_orders += 1
+                        lab = "%so%d" % (self.name.lower(), self.n_orders)
+                        a = {"op": "place", "o": lab, "sel": x.selection_id, "hc": x.handicap or 0, "side": side, "price": price,
+                             "size": rng.choice([2.0, 2.0, 5.0, 10.0, 37.5])}
+                        z = rng.random()
+                        if z < 0.12:
+                            a["tif"] = "FILL_OR_KILL"
+                            if rng.random() < 0.5:
+                                a["min_fill"] = rng.choice([1.0, 2.0])
+                        elif z < 0.22:
+                            a["pers"] = rng.choice(["PERSIST", "MARKET_ON_CLOSE"])
+                        elif z < 0.30 and not mb.inplay:
+                            a["type"] = rng.choice(["LIMIT_ON_CLOSE", "MARKET_ON_CLOSE"])
+                            a["size"] = rng.choice([10.0, 20.0])        # the liability
+                        self.mine.append(lab)
+                        actions.append(a)
+                elif op == "cancel" and live:
+                    a = {"op": "cancel", "o": rng.choice(live)}
+                    if rng.random() < 0.4:
+                        a["reduction"] = rng.choice([1.0, 2.0, 50.0])
+                    actions.append(a)
+                elif op == "update" and live:
+                    actions.append({"op": "update", "o": rng.choice(live), "pers": rng.choice(["PERSIST", "LAPSE"])})
+                elif op == "replace" and live:
+                    l = rng.choice(live)
+                    o = rec.orders[l]
+                    if o.order_type.ORDER_TYPE.name == "LIMIT":
+                        actions.append({"op": "replace", "o": l, "price": _tick_move(o.order_type.price, rng.choice([-2, -1, 1, 2]))})
+                        self.mine.append(l + ".r1")
+            for a in actions:
+                do_action(rec, self, market, None, a)
+        finally:
+            rec.step("cb", strat=self.name, mid=market.market_id, pt=pt, phase=phase, n=len(actions))
+
+
+def _tick_move(price, k):
+    import flumine.utils as fu
+    prices = fu.PRICES_FLOAT
+    i = min(range(len(prices)), key=lambda j: abs(prices[j] - float(price)))
+    return prices[max(0, min(len(prices) - 1, i + k))]
+
+
 def _mk_order_type(a, market):
     t = a.get("type", "LIMIT")
     if t == "LIMIT":
@@ -676,7 +822,7 @@ def do_action(rec, strat, market, txn, a):
                 pers=getattr(ot, "persistence_type", None) or "NA",
                 tif="FOK" if getattr(ot, "time_in_force", None) == "FILL_OR_KILL" else "NONE",
                 minfill=pence(ot.min_fill_size) if getattr(ot, "min_fill_size", None) is not None else -1,
-                rck=rec.rck(strat, market.market_id, order.selection_id),
+                rck=rec.rck(strat, market.market_id, rkey(order.selection_id, order.handicap)),
                 multi=bool(strat.multi_order_trades),
                 reset=_ms(trade.reset_seconds),
                 placereset=_ms(trade.place_reset_seconds),
@@ -684,7 +830,7 @@ def do_action(rec, strat, market, txn, a):
                 maxlive=int(min(strat.max_live_trade_count, 10**6)),
                 pendorders=bool(trade.pending_orders),
                 mver=(_mver(a, market) if _mver(a, market) is not None else -1),
-                selk=str(order.selection_id),
+                selk=rkey(order.selection_id, order.handicap),
                 client=(txn._client.username if txn is not None else rec.flumine.clients.get_default().username),
                 lad=getattr(ot, "price_ladder_definition", None) or "CLASSIC",
             )
@@ -712,7 +858,7 @@ def do_action(rec, strat, market, txn, a):
                 rec.reqs.append(q)
                 return
             q["t"] = rec.label_trade(order.trade)
-            q["rck"] = rec.rck(order.trade.strategy, order.market_id, order.selection_id)
+            q["rck"] = rec.rck(order.trade.strategy, order.market_id, rkey(order.selection_id, order.handicap))
             q["before"] = snapshot_req(rec, order)
             kw = {"force": True} if a.get("force") else {}
             if op == "cancel":
@@ -951,7 +1097,7 @@ def instrument(rec, patches):
             for r in mb.runners:
                 if r.status != "ACTIVE":
                     continue
-                sk = str(r.selection_id)
+                sk = rkey(r.selection_id, r.handicap)
                 cur[sk] = acc.get(sk, {})
                 if sk in prev:  # volume traded since the runner was last seen by the middleware
                     rawdelta[sk] = [[price, v - prev[sk].get(price, 0)] for price, v in sorted(cur[sk].items()) if v - prev[sk].get(price, 0) > 0]
@@ -961,15 +1107,25 @@ def instrument(rec, patches):
                 cur.setdefault(sk, lad)
             rec.ledger[mid] = cur
             prev_removed = rec.removed_seen.get(mid, set())
-            now_removed = {str(r.selection_id): (pence(r.adjustment_factor) if r.adjustment_factor is not None else -1) for r in mb.runners if r.status == "REMOVED"}
+            now_removed = {rkey(r.selection_id, r.handicap): (pence(r.adjustment_factor) if r.adjustment_factor is not None else -1) for r in mb.runners if r.status == "REMOVED"}
             newly = [[k, v] for k, v in sorted(now_removed.items()) if k not in prev_removed]
             rec.removed_seen[mid] = set(now_removed.keys())
+            # orders whose queue position carries a fraction of a penny before this pass (odd reported
+            # volumes in recorded data): their arithmetic is not reproducible in integer pence
+            piqhalf = []
+            for lab, o in rec.visible_orders().items():
+                try:
+                    q = float(o.simulated._piq)
+                    if o.market_id == mid and abs(q * 100 - round(q * 100)) > 1e-6:
+                        piqhalf.append(lab)
+                except Exception:
+                    pass
             try:
                 return orig(self, market)
             finally:
                 an = {}
                 for (sel, hc), ra in self.markets[market.market_id].items():
-                    an[str(sel)] = [[pence(p), pence(s)] for p, s in sorted(ra.traded.items())]
+                    an[rkey(sel, hc)] = [[pence(p), pence(s)] for p, s in sorted(ra.traded.items())]
                 rec.step(
                     "mw",
                     mid=market.market_id,
@@ -983,6 +1139,7 @@ def instrument(rec, patches):
                     minbsp={c.username: pence(c.min_bsp_liability) for c in rec.flumine.clients},
                     active=bool(market.blotter.active),
                     ncleared_flags=len(market.orders_cleared) + len(market.market_cleared),
+                    piqhalf=sorted(piqhalf),
                 )
         return __call__
 
@@ -1086,7 +1243,7 @@ def instrument(rec, patches):
                     "close",
                     mid=mb.market_id,
                     pt=ms_of(mb.publish_time_epoch),
-                    rstat={str(r.selection_id): r.status for r in mb.runners},
+                    rstat={rkey(r.selection_id, r.handicap): r.status for r in mb.runners},
                     nwin=mb.number_of_winners or 0,
                     mtype=mb.market_definition.market_type or "NA",
                     settle=settle,
@@ -1109,13 +1266,16 @@ def proj_book(mb):
         return {}
     out = {"status": mb.status, "version": mb.version or 0, "inplay": bool(mb.inplay), "bsprec": bool(mb.bsp_reconciled), "pt": ms_of(mb.publish_time_epoch), "bsp": bool(mb.market_definition.bsp_market), "r": {}}
     for r in mb.runners:
-        out["r"][str(r.selection_id)] = {
+        out["r"][rkey(r.selection_id, r.handicap)] = {
             "status": r.status,
             "af": pence(r.adjustment_factor) if r.adjustment_factor is not None else -1,
             "atb": [[pence(x["price"]), pence(x["size"])] for x in (r.ex.available_to_back or [])],
             "atl": [[pence(x["price"]), pence(x["size"])] for x in (r.ex.available_to_lay or [])],
             "trd": [[pence(x["price"]), pence(x["size"])] for x in (r.ex.traded_volume or [])],
             "sp": pence(r.sp.actual_sp) if (r.sp is not None and not isinstance(r.sp, list) and isinstance(r.sp.actual_sp, (int, float))) else -1,
+            # recorded data: a starting price / adjustment factor that is not a whole number of cents / of 0.01 %
+            "spx": bool(r.sp is not None and not isinstance(r.sp, list) and isinstance(r.sp.actual_sp, (int, float)) and not is2dp(r.sp.actual_sp)),
+            "afx": bool(r.adjustment_factor is not None and not is2dp(r.adjustment_factor)),
         }
     return out
 
@@ -1147,8 +1307,14 @@ def run_scenario(scn, keep_dir=None, snapshots=True, extra_setup=None):
     rec.snapshots = snapshots
     workdir = keep_dir or tempfile.mkdtemp(prefix="verif_sim_", dir=os.environ.get("VERIF_WORK", None))
     os.makedirs(workdir, exist_ok=True)
+    global T0
+    saved_t0 = T0
+    T0 = int(scn.get("t0", T0))
     paths = []
     for i, m in enumerate(scn["markets"]):
+        if m.get("file"):       # a recorded stream file is used as it is
+            paths.append(m["file"])
+            continue
         p = os.path.join(workdir, m["id"])
         write_market_file(p, m)
         paths.append(p)
@@ -1196,7 +1362,7 @@ def run_scenario(scn, keep_dir=None, snapshots=True, extra_setup=None):
             }
             if cfg.get("event_groups") and mf:
                 mf["event_groups"] = cfg["event_groups"]
-            st = Scripted(
+            st = (Reactive if s.get("reactive") else Scripted)(
                 rec,
                 s,
                 market_filter=mf,
@@ -1224,6 +1390,7 @@ def run_scenario(scn, keep_dir=None, snapshots=True, extra_setup=None):
     finally:
         patches.restore()
         datetime.datetime = real_dt
+        T0 = saved_t0
         for k, v in saved_cfg.items():
             setattr(fconfig, k, v)
         if keep_dir is None:
